@@ -222,6 +222,10 @@ func CreateIDToken(ctx context.Context, issuer string, request IDTokenRequest, v
 			return "", err
 		}
 		claims.SetUserInfo(userInfo)
+		if claims.Subject == "" {
+			// the storage left the userinfo subject empty (e.g. no openid scope): keep the request's subject
+			claims.Subject = request.GetSubject()
+		}
 	} else if len(scopes) > 0 {
 		userInfo := new(oidc.UserInfo)
 		err := storage.SetUserinfoFromScopes(ctx, userInfo, request.GetSubject(), request.GetClientID(), scopes)
@@ -235,6 +239,10 @@ func CreateIDToken(ctx context.Context, issuer string, request IDTokenRequest, v
 			}
 		}
 		claims.SetUserInfo(userInfo)
+		if claims.Subject == "" {
+			// the storage left the userinfo subject empty (e.g. no openid scope): keep the request's subject
+			claims.Subject = request.GetSubject()
+		}
 	}
 	if code != "" {
 		codeHash, err := oidc.ClaimHash(code, signingKey.SignatureAlgorithm())
